@@ -41,6 +41,10 @@ CHECKS["C07"] = dict(
 CHECKS["C10"] = dict(
    text="Early-completion configurations x 10 survivor positions for parallel at top level, inside a child context and nested, all schedules with <=1 (quick) / <=2 (thorough) deviations and three policies; oracle on the backend's update stream and the world's entry log: no descendant update after the ancestor's completion record, no descendant user function entered after it was applied.",
    note=SIM_NOTE, technique=SIM_TECH, design="6/C10", engine="vsched+durable-sim")
+CHECKS["C06"] = dict(
+   text="(a) Component harness: real ExecutionState producers against the real consumer with API call k failing (three error classes), producers keep issuing calls, all schedules within 2 (quick) / 3 (thorough) deviations plus line-level preemption in state.py: no call after the failure, every blocked and later synchronous caller raises BackgroundThreadError carrying the failure, nobody blocked at the horizon. (b) Whole handler: 14 program shapes (incl. parallel/map with running, parked and timer-resubmitted branches) with every checkpoint call failing with each of four error classes under three policies (+1 deviation): the invocation ends, raises or returns FAILED per classification, never SUCCEEDED/PENDING, makes no further API call and delivers no unrecorded outcome.",
+   note=SIM_NOTE + " Classification table taken from the property text and the SDK's tested behaviour: 4xx other than 429/invalid-token => raise; 5xx, 429, invalid token => FAILED.",
+   technique=SIM_TECH + "; plus component-level stateless model checking of the checkpoint pipeline", design="6/C06", engine="vsched+durable-sim")
 NOT_YET = {}
 
 def main():
